@@ -255,8 +255,17 @@ func bareVec32(p int64) []int32 {
 	return v
 }
 
+// vecLen64: the longest class of the 64-bit vectors is 140000 elements = 1.07 MiB (above 2^20 bytes: a cap on the size of
+// an unpacked object or of a message would show here)
+func vecLen64(p int64) int {
+	if n := vecLen(p); n != 20000 {
+		return n
+	}
+	return 140000
+}
+
 func bareVec64(p int64) []int64 {
-	v := make([]int64, vecLen(p))
+	v := make([]int64, vecLen64(p))
 	for i := range v {
 		v[i] = int64(7000+i) << 33 // needs more than 32 bits
 	}
